@@ -6,7 +6,7 @@ import "sort"
 
 // VerifStreamInflow is one active client stream's receive bookkeeping.
 type VerifStreamInflow struct {
-	ID                                        uint32
+	ID                                       uint32
 	Limit, PendingData, PendingUpdate, Delta uint32
 }
 
@@ -33,3 +33,19 @@ func VerifClientInflow(ct ClientTransport) (iws int32, connLimit, connUnacked ui
 
 // VerifClientStreamID is s.id (0 until the stream is registered).
 func VerifClientStreamID(s *ClientStream) uint32 { return s.id }
+
+// VerifServerInflow is VerifClientInflow for a quiescent server transport.
+func VerifServerInflow(st ServerTransport) (iws int32, connLimit, connUnacked uint32, streams []VerifStreamInflow) {
+	t := st.(*http2Server)
+	connLimit, connUnacked = t.fc.limit, t.fc.unacked
+	t.mu.Lock()
+	iws = t.initialWindowSize
+	for id, s := range t.activeStreams {
+		s.fc.mu.Lock()
+		streams = append(streams, VerifStreamInflow{id, s.fc.limit, s.fc.pendingData, s.fc.pendingUpdate, s.fc.delta})
+		s.fc.mu.Unlock()
+	}
+	t.mu.Unlock()
+	sort.Slice(streams, func(i, j int) bool { return streams[i].ID < streams[j].ID })
+	return
+}
